@@ -4,7 +4,7 @@ import itertools
 from vlib import core, oracles
 
 NAMES = ['col', 'Col_1', 'x', 'élan', 'tbl2']
-NAMES_MORE = ['a1', 'ñ', 'my_long_name', 'T', 'c$1']
+NAMES_MORE = ['a1', 'ñ', 'my_long_name', 'T', 'c_1x']
 QUOTE = [('', ''), ('"', '"'), ('`', '`')]
 # spellings that only exist inside quotes ({q}{q} = the escaped quote character of the style in use)
 QUOTED_ONLY = ['my col', 'x{q}{q}', '{q}{q}x', 'a{q}{q}b', 'se;l.ect']
